@@ -28,6 +28,9 @@ pub struct SplitMeta {
     pub inner: Arc<dyn MetadataClient>,
     pub phase: SplitPhase,
     pub split_point: i64,
+    /// Some(old shard id): nothing is made up - the split state the real catalog holds for that
+    /// shard is reported for whatever shard id the ingester computes
+    pub live: Option<String>,
 }
 
 #[async_trait]
@@ -72,6 +75,9 @@ impl MetadataClient for SplitMeta {
         self.inner.start_split(old_shard, new_shards, split_point).await
     }
     async fn get_split_state(&self, shard_id: &str) -> CsResult<Option<SplitState>> {
+        if let Some(old) = &self.live {
+            return self.inner.get_split_state(old).await;
+        }
         Ok(Some(SplitState {
             phase: self.phase,
             old_shard: shard_id.to_string(),
@@ -103,9 +109,15 @@ impl MetadataClient for SplitMeta {
         self.inner.load_leases().await
     }
     async fn has_active_split(&self) -> CsResult<bool> {
+        if self.live.is_some() {
+            return self.inner.has_active_split().await;
+        }
         Ok(matches!(self.phase, SplitPhase::DualWrite | SplitPhase::Backfill))
     }
     async fn active_split_new_shards(&self) -> CsResult<Vec<String>> {
+        if self.live.is_some() {
+            return self.inner.active_split_new_shards().await;
+        }
         Ok(if matches!(self.phase, SplitPhase::DualWrite | SplitPhase::Backfill) { vec![NEW_A.to_string(), NEW_B.to_string()] } else { vec![] })
     }
 }
@@ -175,7 +187,7 @@ async fn ingest_split(phase: u8, backend: u8, flush_rows: u8, batches: &[SBatch]
     let store: Arc<dyn object_store::ObjectStore> = Arc::new(object_store::memory::InMemory::new());
     let inner: Arc<dyn MetadataClient> = if backend % 2 == 0 { Arc::new(LocalMetadataClient::new()) } else { Arc::new(ObjectStoreMetadataClient::new(store.clone(), ObjectStoreMetadataConfig::default())) };
     let sp = sp_now();
-    let md = Arc::new(SplitMeta { inner: inner.clone(), phase: if phase % 2 == 0 { SplitPhase::DualWrite } else { SplitPhase::Backfill }, split_point: sp });
+    let md = Arc::new(SplitMeta { inner: inner.clone(), phase: if phase % 2 == 0 { SplitPhase::DualWrite } else { SplitPhase::Backfill }, split_point: sp, live: None });
     let cfg = IngesterConfig { flush_row_count: 1 + (flush_rows % 8) as usize, flush_interval: std::time::Duration::from_millis(50), wal: WalConfig { enabled: false, ..Default::default() }, ..Default::default() };
     let ing = Arc::new(Ingester::new(cfg, store.clone(), md, storage_config(), MetricSchema::default_metrics()));
     let mut accepted = Vec::new();
@@ -526,6 +538,165 @@ pub fn exec_e2e(case: &E2eCase) -> Outcome {
     })
 }
 
+
+// ---- lifecycle: stored history + real back-fill, queried in both phases ------------------
+
+const OLD: &str = "shard-under-split";
+
+#[derive(Clone, Debug, Serialize, Deserialize)]
+pub struct LifeCase {
+    pub backend: u8,
+    pub flush_rows: u8,
+    /// chunks the old shard holds before the split starts
+    pub history: Vec<SBatch>,
+    /// written through the ingester in the dual-write phase
+    pub dual: Vec<SBatch>,
+    /// written through the ingester in the back-fill phase (after the back-fill ran)
+    pub late: Vec<SBatch>,
+    pub queries: Vec<u8>,
+}
+
+async fn ingest_live(store: &Arc<dyn object_store::ObjectStore>, inner: &Arc<dyn MetadataClient>, flush_rows: u8, sp: i64, batches: &[SBatch], rid: &mut i64, accepted: &mut Vec<RecordBatch>) -> Result<(), (String, String)> {
+    let md = Arc::new(SplitMeta { inner: inner.clone(), phase: SplitPhase::DualWrite, split_point: sp, live: Some(OLD.to_string()) });
+    let cfg = IngesterConfig { flush_row_count: 1 + (flush_rows % 8) as usize, flush_interval: std::time::Duration::from_millis(50), wal: WalConfig { enabled: false, ..Default::default() }, ..Default::default() };
+    let ing = Arc::new(Ingester::new(cfg, store.clone(), md, storage_config(), MetricSchema::default_metrics()));
+    for b in batches {
+        let rb = sbatch(&SBatch { rows: b.rows.clone(), ts_type: 0 }, sp, *rid);
+        *rid += b.rows.len() as i64;
+        match ing.write(rb.clone()).await {
+            Ok(()) => accepted.push(rb),
+            Err(e) => return Err(("dual-write-failed".into(), format!("write of an Int64-timestamp batch failed during the split: {:?}", e))),
+        }
+    }
+    let ing2 = ing.clone();
+    let t = tokio::spawn(async move { ing2.run_flush_timer().await });
+    ing.shutdown_token().cancel();
+    let _ = t.await;
+    Ok(())
+}
+
+async fn compare_queries(out: &mut Outcome, store: &Arc<dyn object_store::ObjectStore>, inner: &Arc<dyn MetadataClient>, all: &[RecordBatch], sp: i64, queries: &[u8], phase: &str) -> bool {
+    let schema = all[0].schema();
+    let env = Env { store: store.clone(), metadata: inner.clone(), all: all.to_vec(), schema: schema.clone() };
+    let node = match query_node(&env, false).await {
+        Ok(n) => n,
+        Err(e) => {
+            out.set_fail("query-node-failed", e);
+            return false;
+        }
+    };
+    let (lo, hi) = (sp - 60_000_000_000, sp + 60_000_000_000);
+    for q in queries {
+        let sql = e2e_sql(*q, lo, hi);
+        let want = reference(&sql, &env.all, schema.clone()).await;
+        let got = node.query(&sql).await;
+        let kind = if q % 6 == 0 || q % 6 == 3 { "rows" } else { "aggregate" };
+        match (want, got) {
+            (Ok(w), Ok(g)) => {
+                let (wr, gr) = (result_rows(&w), result_rows(&g));
+                if wr != gr {
+                    let what = if gr.len() > wr.len() {
+                        "copies-not-suppressed"
+                    } else if gr.len() < wr.len() {
+                        "rows-missing"
+                    } else {
+                        "values-differ"
+                    };
+                    out.set_fail(format!("lifecycle:{}:{}:{}", phase, kind, what), format!("{} phase: {}\n expected {:?}\n got {:?}", phase, sql, wr.iter().take(4).collect::<Vec<_>>(), gr.iter().take(4).collect::<Vec<_>>()));
+                    return false;
+                }
+            }
+            (Err(_), Err(_)) => {}
+            (Ok(_), Err(e)) => {
+                out.set_fail(format!("lifecycle:{}:{}:error", phase, kind), format!("{}: {:?}", sql, e));
+                return false;
+            }
+            (Err(e), Ok(_)) => {
+                out.set_fail("lifecycle:reference-error", format!("{}: {}", sql, e));
+                return false;
+            }
+        }
+    }
+    true
+}
+
+pub fn exec_lifecycle(case: &LifeCase) -> Outcome {
+    let rt = rt_plain();
+    rt.block_on(async {
+        let mut out = Outcome::pass();
+        let store: Arc<dyn object_store::ObjectStore> = Arc::new(object_store::memory::InMemory::new());
+        let inner: Arc<dyn MetadataClient> = if case.backend % 2 == 0 { Arc::new(LocalMetadataClient::new()) } else { Arc::new(ObjectStoreMetadataClient::new(store.clone(), ObjectStoreMetadataConfig::default())) };
+        let sp = sp_now();
+        let mut rid = 0i64;
+        let mut all: Vec<RecordBatch> = Vec::new();
+        // the old shard's stored history: chunks whose path carries the shard id (that is how
+        // get_chunks_for_shard attributes chunks to shards)
+        let writer = cardinalsin::ingester::ParquetWriter::new();
+        for (k, b) in case.history.iter().enumerate() {
+            let rb = sbatch(&SBatch { rows: b.rows.clone(), ts_type: 0 }, sp, rid);
+            rid += b.rows.len() as i64;
+            let bytes = writer.write_batch(&rb).expect("parquet");
+            let path = format!("{}/chunk_{:02}.parquet", OLD, k);
+            store.put(&path.as_str().into(), bytes.clone().into()).await.expect("put");
+            let (mn, mx) = ts_bounds(&[rb.clone()]).unwrap();
+            let meta = ChunkMetadata { path: path.clone(), min_timestamp: mn, max_timestamp: mx, row_count: rb.num_rows() as u64, size_bytes: bytes.len() as u64 };
+            if let Err(e) = inner.register_chunk(&path, &meta).await {
+                out.set_fail("setup-failed", format!("{:?}", e));
+                return out;
+            }
+            all.push(rb);
+        }
+        if !compare_queries(&mut out, &store, &inner, &all, sp, &case.queries, "before-split").await {
+            return out;
+        }
+        // ---- dual-write phase ----
+        if let Err(e) = inner.start_split(OLD, vec![NEW_A.to_string(), NEW_B.to_string()], sp.to_be_bytes().to_vec()).await {
+            out.set_fail("start-split-failed", format!("{:?}", e));
+            return out;
+        }
+        if let Err(e) = inner.update_split_progress(OLD, 0.0, SplitPhase::DualWrite).await {
+            out.set_fail("update-split-progress-failed", format!("{:?}", e));
+            return out;
+        }
+        if let Err((s, m)) = ingest_live(&store, &inner, case.flush_rows, sp, &case.dual, &mut rid, &mut all).await {
+            out.set_fail(s, m);
+            return out;
+        }
+        if !compare_queries(&mut out, &store, &inner, &all, sp, &case.queries, "dual-write").await {
+            return out;
+        }
+        // ---- back-fill phase: the real splitter copies the old shard's chunks ----
+        let splitter = cardinalsin::sharding::ShardSplitter::new(inner.clone(), store.clone());
+        if let Err(e) = splitter.run_backfill(OLD, &[NEW_A.to_string(), NEW_B.to_string()], &sp.to_be_bytes()).await {
+            out.set_fail("backfill-failed-without-fault", format!("{:?}", e));
+            return out;
+        }
+        let copies = inner.list_chunks().await.unwrap_or_default().iter().filter(|c| c.chunk_path.contains("backfill")).count();
+        if copies > 0 {
+            out.class("back-fill-copies-present");
+        }
+        match inner.get_split_state(OLD).await {
+            Ok(Some(st)) if st.phase == SplitPhase::Backfill => {}
+            other => {
+                out.set_fail("lifecycle:phase-not-backfill-after-run-backfill", format!("{:?}", other.map(|o| o.map(|s| s.phase))));
+                return out;
+            }
+        }
+        if !compare_queries(&mut out, &store, &inner, &all, sp, &case.queries, "back-fill").await {
+            return out;
+        }
+        if let Err((s, m)) = ingest_live(&store, &inner, case.flush_rows, sp, &case.late, &mut rid, &mut all).await {
+            out.set_fail(s, m);
+            return out;
+        }
+        if !compare_queries(&mut out, &store, &inner, &all, sp, &case.queries, "back-fill+writes").await {
+            return out;
+        }
+        out.nontrivial = copies > 0 && !case.dual.is_empty();
+        out
+    })
+}
+
 fn srow() -> impl Strategy<Value = SRow> {
     (prop_oneof![2 => Just(0i8), 3 => -2i8..=2], 0u8..2, prop::option::weighted(0.8, 0u8..3), -8i8..8).prop_map(|(rel, metric, host, value)| SRow { rel, metric, host, value })
 }
@@ -538,12 +709,21 @@ pub fn def() -> PropDef {
     PropDef {
         id: "C15",
         level: "exploration",
-        rule: "routing: real Ingester whose catalog reports a DualWrite / Backfill split (generated split point) for the computed shard; 1-4 batches of 1-5 rows with timestamps 2 steps below .. exactly at .. 2 steps above the split point, 2 metrics, nullable host, Int64 timestamps (Timestamp(ns)-typed batches as a separate class), both catalog back-ends; oracle: chunks under each new shard's path hold exactly the accepted rows on its side (split-point rows in the upper shard), each once, and the old-shard chunks hold every accepted row. e2e: QueryNode on data dual-written by the ingester, 6 query shapes incl. count / sum / group by, vs the same SQL over a MemTable of the accepted rows. Non-trivial = rows on both sides of / at the split point, or >=2 series per (timestamp, metric), or copies present.",
+        rule: "routing: real Ingester whose catalog reports a DualWrite / Backfill split (generated split point) for the computed shard; 1-4 batches of 1-5 rows with timestamps 2 steps below .. exactly at .. 2 steps above the split point, 2 metrics, nullable host, Int64 timestamps (Timestamp(ns)-typed batches as a separate class), both catalog back-ends; oracle: chunks under each new shard's path hold exactly the accepted rows on its side (split-point rows in the upper shard), each once, and the old-shard chunks hold every accepted row. e2e: QueryNode on data dual-written by the ingester, 6 query shapes incl. count / sum / group by, vs the same SQL over a MemTable of the accepted rows. Non-trivial = rows on both sides of / at the split point, or >=2 series per (timestamp, metric), or copies present. lifecycle: an old shard with 1-3 stored chunks (paths carry the shard id), real start_split -> dual-write phase with 0-2 batches through the ingester (which sees the catalog's real split state) -> the real ShardSplitter::run_backfill -> 0-2 more batches; the same queries against a fresh QueryNode before the split, in the dual-write phase, after the back-fill and after the late writes, each vs the MemTable reference. Non-trivial there = back-fill copies exist and something was dual-written.",
         assumptions: &["for genuinely identical ingested rows any multiplicity between 1 and the ingested one is accepted", "DataFusion's evaluator is the trusted reference for the end-to-end part"],
         subs: || {
             vec![
                 Box::new(Sub::<RouteCase> { name: "routing", cases: |t| t.scale(5_000, 6), strategy: |_| route_case(2).boxed(), exec: exec_route }),
                 Box::new(Sub::<E2eCase> { name: "e2e", cases: |t| t.scale(2_000, 5), strategy: |_| (route_case(1), prop::collection::vec(0u8..6, 1..4)).prop_map(|(route, queries)| E2eCase { route, queries }).boxed(), exec: exec_e2e }),
+                Box::new(Sub::<LifeCase> {
+                    name: "lifecycle",
+                    cases: |t| t.scale(1_500, 5),
+                    strategy: |_| {
+                        let sb = || prop::collection::vec(srow(), 1..6).prop_map(|rows| SBatch { rows, ts_type: 0 });
+                        (0u8..2, 0u8..8, prop::collection::vec(sb(), 1..4), prop::collection::vec(sb(), 0..3), prop::collection::vec(sb(), 0..3), prop::collection::vec(0u8..6, 1..4)).prop_map(|(backend, flush_rows, history, dual, late, queries)| LifeCase { backend, flush_rows, history, dual, late, queries }).boxed()
+                    },
+                    exec: exec_lifecycle,
+                }),
             ]
         },
     }
